@@ -237,6 +237,12 @@ def run(rep, ctx):
         pairs.append((va % same_content, vb % same_content, True))
         pairs.append((vb % same_content, va % same_content, True))
         pairs_forced += [(va % same_content, vb % same_content, True, inc) for inc in ('all', 'deletions', 'insertions', 'combined')]
+    # pairs whose titles sit in unusual places, under the views that carry the title diff
+    for ta, tb in (('<p>Hello</p><title>Old body title</title>', '<p>Hello</p><title>New body title</title>'),
+                   ('<html><head><title>Head title</title></head><body><p>x</p></body></html>', '<html><head></head><body><h1>x</h1><title>Body title three</title><p>y</p></body></html>'),
+                   ('<html><head></head><body><svg><title>Icon</title><circle r="1"/></svg>hi</body></html>', '<p>Hello</p><title>New body title</title>'),
+                   ('<p>no title at all</p>', '<body><template><title>T</title></template><p>x</p><title>late title</title></body>')):
+        pairs_forced += [(ta, tb, True, inc) for inc in ('all', 'combined')] + [(tb, ta, True, 'combined')]
     rediffed = [m for m in mal if 'wm-diff-' in m]
     for f in FRAMESETS:
         pairs += [(f, f, False), (f, '<p>x</p>', False), ('<p>x</p>', f, False)]
